@@ -380,6 +380,8 @@ class SimLoop(base_events.BaseEventLoop):
         self._quiesce_waiters = []
         self.net = Net(self, tape or Tape())
         self.exec_delay_from_tape = True
+        self.exec_calls = 0
+        self.exec_slow = {}  # executor call index -> virtual seconds that call takes
 
     def time(self):
         return self._vtime
@@ -402,6 +404,12 @@ class SimLoop(base_events.BaseEventLoop):
         else:
             cb, val = fut.set_result, res
         n = EXEC_DELAYS[self.net.tape.draw(len(EXEC_DELAYS))] if self.exec_delay_from_tape else 0
+        self.exec_calls += 1
+        slow = self.exec_slow.get(self.exec_calls)
+        if slow:
+            # this blocking call takes `slow` virtual seconds in its worker thread
+            self.call_later(slow, lambda: (not fut.done()) and cb(val))
+            return fut
 
         def fire(left):
             if fut.done():
